@@ -156,3 +156,15 @@ func init() {
 		return 0
 	}
 }
+
+func init() {
+	devHooks["codec"] = func(p *Prog, fnPat, untr string) int {
+		for _, cp := range findCodecPairs(p, codecScope) {
+			if !strings.Contains(cp.typ, fnPat) {
+				continue
+			}
+			fmt.Printf("== %s  %s / %s\n  W: %v\n  R: %v\n", cp.typ, funcBaseName(cp.writer), funcBaseName(cp.reader), codecSeq(cp.writer), codecSeq(cp.reader))
+		}
+		return 0
+	}
+}
